@@ -52,12 +52,21 @@ Theorem c06_output_le_limit : forall (L : N) ops s,
 Proof. exact output_le_limit. Qed.
 Print Assumptions c06_output_le_limit.
 
-(** The carry: a child buffer and the buffer it was opened on together never
-    hold more than [L] bytes. *)
-Theorem c06_child_plus_parent_le_limit : forall (L : N) ops s pre b p post,
+(** ... and so does every buffer that is live at that moment (capture and
+    block.super buffers). *)
+Theorem c06_every_buffer_le_limit : forall (L : N) ops s b,
   brender (Some L) (binit (Some L)) ops = Ok s ->
-  top s :: below s = pre ++ b :: p :: post ->
-  utf8_len (getvalue b) + utf8_len (getvalue p) <= L.
+  In b (top s :: below s) -> utf8_len (getvalue b) <= L.
+Proof. exact every_buffer_le_limit. Qed.
+Print Assumptions c06_every_buffer_le_limit.
+
+(** The carry: while text is written to a child buffer, the child and the
+    buffer it was opened on (the [k]-th below it) together never hold more than
+    [L] bytes. *)
+Theorem c06_child_plus_parent_le_limit : forall (L : N) ops k ss s p,
+  brender (Some L) (binit (Some L)) (ops ++ OpenChild k :: map Write ss) = Ok s ->
+  nth_error (below s) k = Some p ->
+  utf8_len (getvalue (top s)) + utf8_len (getvalue p) <= L.
 Proof. exact child_plus_parent_le_limit. Qed.
 Print Assumptions c06_child_plus_parent_le_limit.
 
